@@ -9,6 +9,7 @@ import (
 	"go/token"
 	"os"
 	"path/filepath"
+	"sort"
 	"strconv"
 	"strings"
 )
@@ -157,6 +158,95 @@ func genC03() {
 	}
 	facts["idle_consumer_option_sites"] = optSites
 	facts["rdb_parse_sites"] = parseSites
+
+	// process-global state reached from the snapshot path (dimension audit, session 5): every
+	// package-level `var` of the packages the property's anchors live in, and every statement outside a
+	// declaration that assigns one (`pkg:func:name`). The models treat them as constants.
+	var pkgVars, pkgVarWrites []string
+	for _, dir := range []string{"pkg/rdb", "pkg/rdbrestore", "pkg/redis/types", "pkg/digest"} {
+		ents, err := os.ReadDir(filepath.Join(*repo, dir))
+		if err != nil {
+			die("read %s: %v", dir, err)
+		}
+		names := map[string]bool{}
+		var files []*ast.File
+		for _, e := range ents {
+			n := e.Name()
+			if e.IsDir() || !strings.HasSuffix(n, ".go") || strings.HasSuffix(n, "_test.go") {
+				continue
+			}
+			_, f := parseFile(filepath.Join(dir, n))
+			files = append(files, f)
+			for _, d := range f.Decls {
+				if gd, ok := d.(*ast.GenDecl); ok && gd.Tok == token.VAR {
+					for _, sp := range gd.Specs {
+						for _, id := range sp.(*ast.ValueSpec).Names {
+							if id.Name != "_" {
+								names[id.Name] = true
+								pkgVars = append(pkgVars, dir+":"+id.Name)
+							}
+						}
+					}
+				}
+			}
+		}
+		for _, f := range files {
+			for _, d := range f.Decls {
+				fd, ok := d.(*ast.FuncDecl)
+				if !ok || fd.Body == nil {
+					continue
+				}
+				note := func(e ast.Expr) {
+					for {
+						switch x := e.(type) {
+						case *ast.IndexExpr:
+							e = x.X
+							continue
+						case *ast.ParenExpr:
+							e = x.X
+							continue
+						case *ast.StarExpr:
+							e = x.X
+							continue
+						}
+						break
+					}
+					id, ok := e.(*ast.Ident)
+					if !ok || !names[id.Name] {
+						return
+					}
+					if id.Obj != nil && id.Obj.Pos() >= fd.Pos() && id.Obj.Pos() < fd.End() {
+						return // a local of that name
+					}
+					pkgVarWrites = append(pkgVarWrites, dir+":"+fd.Name.Name+":"+id.Name)
+				}
+				ast.Inspect(fd.Body, func(nd ast.Node) bool {
+					switch x := nd.(type) {
+					case *ast.AssignStmt:
+						if x.Tok != token.DEFINE {
+							for _, l := range x.Lhs {
+								note(l)
+							}
+						}
+					case *ast.IncDecStmt:
+						note(x.X)
+					case *ast.UnaryExpr:
+						if x.Op == token.AND {
+							note(x.X) // address taken: may be written elsewhere
+						}
+					}
+					return true
+				})
+			}
+		}
+	}
+	sort.Strings(pkgVars)
+	sort.Strings(pkgVarWrites)
+	if pkgVarWrites == nil {
+		pkgVarWrites = []string{}
+	}
+	facts["c03_pkg_vars"] = pkgVars
+	facts["c03_pkg_var_writes"] = pkgVarWrites
 }
 
 func evalConstInt(e ast.Expr) (int64, bool) {
